@@ -563,7 +563,7 @@ def std_scalars(ctx, cur):
 # curves whose group order is NOT prime (cofactor > 1) have points of small order; (x, 0) has order 2 and the library reads y = 0 as
 # "infinity".  x-coordinates of such points (checked against the reference curve at run time)
 LOW_ORDER_X = {"SECP112r2": 0xB1FD8DE127D4656B573EB513984D}
-INVALID = ["low-order-y0", "x+p-small-x", "off-curve-y+1", "off-curve-x+1", "x>=p", "y>=p", "zero-zero", "other-curve", "infinity-encoding", "seed-garbage", "valid-control"]
+INVALID = ["same-point-foreign-curve-object", "low-order-y0", "x+p-small-x", "off-curve-y+1", "off-curve-x+1", "x>=p", "y>=p", "zero-zero", "other-curve", "infinity-encoding", "seed-garbage", "valid-control"]
 
 
 def invalid_case(ctx, o, cur, kind):
@@ -621,6 +621,28 @@ def invalid_case(ctx, o, cur, kind):
         y = ctx.symint("c17-gy-" + cur.name, p)
         if cv.on_curve((x, y)):
             return Outcome("accidentally-on-curve", False)
+    elif kind == "same-point-foreign-curve-object":
+        # an honest point of this curve, but the OBJECT is bound to another curve that happens to pass through it
+        # (y^2 = x^3 + (a+1)x + (b - x)): arithmetic on it would use the other curve's coefficients
+        x, y = Q
+        other_cf = E.CurveFp(p, (cv.a + 1) % p, (cv.b - x) % p, 1)
+        for name, mk in (("from_public_point-affine", lambda: VerifyingKey.from_public_point(E.Point(other_cf, x, y), curve=cur)),
+                         ("from_public_point-jacobi", lambda: VerifyingKey.from_public_point(E.PointJacobi(other_cf, x, y, 1), curve=cur))):
+            try:
+                vk_ = mk()
+            except Exception:
+                continue
+            # accepted: then at least the key agreement must be the one of THIS curve for these coordinates
+            e_ = ECDH(curve=cur, private_key=SigningKey.from_secret_exponent(3, curve=cur), public_key=vk_)
+            try:
+                got = e_.generate_sharedsecret_bytes()
+            except Exception:
+                continue
+            if got != cv.mul(3, Q)[0].to_bytes(size, "big"):
+                o.cls = "accepted-invalid"
+                o.viol("invalid|foreign-curve-object|%s" % name, "%s: %s accepts a point object bound to another curve and key agreement then computes on that "
+                       "other curve (secret differs from 3*Q on %s)" % (cur.name, name, cur.name))
+        return o
     elif kind == "infinity-encoding":
         x = y = None
     else:
